@@ -17,7 +17,15 @@ equally and o1 is right-associative).
      comparisons.
  R3  lexer: every Fortran operator spelling has a token of the right kind.
  R4  literal text is not rewritten in a meaning-changing way (``d`` exponent).
-Not decided: conversion of individual node kinds by PymbolicMapper.
+ R5  operand coverage of the pymbolic -> Loki conversion: every ``map_<k>`` that
+     PymbolicMapper defines for a pymbolic primitive reads every constructor
+     argument of that primitive (``init_arg_names``), and operand-valued ones are
+     passed through ``self.rec``.
+ R6  range normalisation loses no bound: in ``map_slice`` a replacement of the
+     converted ``children`` by a constant tuple is only allowed under a guard
+     that (evaluated over all shapes of 1..3 components, each absent/present)
+     implies every component is absent.
+Not decided: the remaining per-node conversion details of PymbolicMapper.
 """
 import ast
 import re
@@ -142,7 +150,7 @@ def run(ctx):
     for o1 in BINARY:
         for o2 in BINARY:
             b1, b2 = table[o1], table[o2]
-            parser_abs = b2['g'] > b1['r']
+            parser_abs = b2['g'] > b1['r'] if b2['strict'] else b2['g'] >= b1['r']
             fortran_abs = LEVEL[o2] > LEVEL[o1] or (LEVEL[o2] == LEVEL[o1] and o1 in RIGHT_ASSOC)
             inst = f'{o1} then {o2}'
             facts = {'g(o2)': b2['g'], 'r(o1)': b1['r'], 'parser_absorbs': parser_abs, 'fortran_absorbs': fortran_abs,
@@ -275,6 +283,161 @@ def run(ctx):
             ctx.violation('R3', f'lex:{sp}', P.where,
                           f'Fortran operator {sp} is lexed as token {hit!r} (different meaning)', facts=facts)
 
+    # ---- R5 operand coverage of PymbolicMapper
+    ctx.rule('R5', 'for every pymbolic primitive K whose mapper_method is defined by PymbolicMapper: each name in K.init_arg_names is '
+                   'read from the node; operand-valued ones reach self.rec')
+    PM = m.get_class(FILE, 'PymbolicMapper')
+    prim = m.module('pymbolic.primitives')
+    OPERANDS = {'children', 'base', 'exponent', 'numerator', 'denominator', 'left', 'right', 'child', 'parameters', 'kw_parameters',
+                'aggregate', 'name'}
+    R5_EXEMPT = {('map_lookup', 'name'): 'component name is converted by self.rec(expr.name, parent=...)',
+                 ('map_variable', 'name'): 'leaf: the name string is the payload',
+                 ('map_call_with_kwargs', 'function'): 'only function.name is meaningful', }
+    n5 = 0
+    for K in prim.classes.values():
+        mmv, _ = m.class_attr(K, 'mapper_method')
+        if mmv is None:
+            continue
+        mm = m.const(prim, mmv, K)
+        if mm is NOFOLD or mm not in PM.members or PM.members[mm].kind != 'func':
+            continue
+        ian, _ = m.class_attr(K, 'init_arg_names')
+        names = m.const(prim, ian, K) if ian is not None else None
+        if names in (None, NOFOLD) or not isinstance(names, tuple):
+            continue
+        fn = PM.members[mm].node
+        if any(isinstance(x, ast.Raise) for x in fn.body):
+            ctx.judge('R5', f'{mm}: fails closed', nontrivial=False)
+            continue
+        par = [a.arg for a in fn.args.args][1]
+        for an in names:
+            n5 += 1
+            inst = f'PymbolicMapper.{mm}:{K.name}.{an}'
+            reads = [x for x in ast.walk(fn) if isinstance(x, ast.Attribute) and x.attr == an and isinstance(x.value, ast.Name) and x.value.id == par]
+            if not reads:
+                ctx.violation('R5', inst, f'{PM.module.relpath}:{fn.lineno}',
+                              f'PymbolicMapper.{mm} never reads `{par}.{an}` of the pymbolic {K.name}: that operand is dropped from '
+                              f'the converted tree')
+                continue
+            if an not in OPERANDS or (mm, an) in R5_EXEMPT:
+                ctx.judge('R5', inst, nontrivial=False)
+                continue
+            # operand-valued: must be inside a self.rec(...) call or iterated by a comprehension whose element calls self.rec
+            ok = False
+            for x in ast.walk(fn):
+                if isinstance(x, ast.Call) and dotted(x.func) == 'self.rec' and any(r in list(ast.walk(x)) for r in reads):
+                    ok = True
+                if isinstance(x, (ast.GeneratorExp, ast.ListComp, ast.DictComp)):
+                    its = [y for g in x.generators for y in ast.walk(g.iter)]
+                    elt = [x.elt] if not isinstance(x, ast.DictComp) else [x.key, x.value]
+                    if any(r in its for r in reads) and any(isinstance(c, ast.Call) and dotted(c.func) == 'self.rec' for e in elt for c in ast.walk(e)):
+                        ok = True
+            if ok:
+                ctx.judge('R5', inst)
+            else:
+                ctx.violation('R5', inst, f'{PM.module.relpath}:{fn.lineno}',
+                              f'PymbolicMapper.{mm} reads `{par}.{an}` but never converts it with self.rec: a pymbolic sub-tree ends '
+                              f'up inside the Loki tree')
+    ctx.floor('R5', 'constructor arguments of converted pymbolic primitives', n5, 14)
+
+    # ---- R6 slice normalisation
+    ctx.rule('R6', 'map_slice: `children` may be replaced by a constant tuple only under a guard that implies all components are None '
+                   '(evaluated over every shape of 1..3 components, each None or present)')
+    ms = PM.members.get('map_slice')
+    if ms is None:
+        raise AnalysisError('PymbolicMapper.map_slice vanished')
+    import itertools
+    n6 = 0
+
+    class _Unknown(Exception):
+        pass
+
+    def ev(e, env):
+        if isinstance(e, ast.Constant):
+            return e.value
+        if isinstance(e, ast.Name):
+            if e.id in env:
+                return env[e.id]
+            raise _Unknown(e.id)
+        if isinstance(e, ast.BoolOp):
+            vals = [ev(v, env) for v in e.values]
+            return all(vals) if isinstance(e.op, ast.And) else any(vals)
+        if isinstance(e, ast.UnaryOp) and isinstance(e.op, ast.Not):
+            return not ev(e.operand, env)
+        if isinstance(e, ast.Subscript):
+            v = ev(e.value, env)
+            i = ev(e.slice, env)
+            try:
+                return v[i]
+            except (IndexError, TypeError):
+                return 'X'
+        if isinstance(e, ast.Call) and isinstance(e.func, ast.Name) and e.func.id == 'len' and len(e.args) == 1:
+            return len(ev(e.args[0], env))
+        if isinstance(e, ast.Call) and isinstance(e.func, ast.Name) and e.func.id in ('all', 'any') and len(e.args) == 1 \
+                and isinstance(e.args[0], ast.GeneratorExp) and len(e.args[0].generators) == 1 and isinstance(e.args[0].generators[0].target, ast.Name):
+            g = e.args[0].generators[0]
+            seq = ev(g.iter, env)
+            vals = [ev(e.args[0].elt, {**env, g.target.id: x}) for x in seq if all(ev(i, {**env, g.target.id: x}) for i in g.ifs)]
+            return all(vals) if e.func.id == 'all' else any(vals)
+        if isinstance(e, ast.Compare) and len(e.ops) == 1:
+            a, b = ev(e.left, env), ev(e.comparators[0], env)
+            op = e.ops[0]
+            if isinstance(op, ast.Is):
+                return a is b
+            if isinstance(op, ast.IsNot):
+                return a is not b
+            if isinstance(op, ast.Eq):
+                return a == b
+            if isinstance(op, ast.NotEq):
+                return a != b
+            if isinstance(op, ast.Gt):
+                return a > b
+            if isinstance(op, ast.Lt):
+                return a < b
+            if isinstance(op, ast.GtE):
+                return a >= b
+            if isinstance(op, ast.LtE):
+                return a <= b
+        if isinstance(e, ast.Tuple):
+            return tuple(ev(x, env) for x in e.elts)
+        raise _Unknown(ast.unparse(e))
+
+    def visit6(stmts, guards):
+        nonlocal n6
+        for st in stmts:
+            if isinstance(st, ast.If):
+                visit6(st.body, guards + [st.test])
+                visit6(st.orelse, guards + [ast.UnaryOp(op=ast.Not(), operand=st.test)])
+            elif isinstance(st, ast.Assign) and ast.unparse(st.targets[0]) == 'children' and isinstance(st.value, ast.Tuple) \
+                    and all(isinstance(x, ast.Constant) for x in st.value.elts):
+                n6 += 1
+                bad = None
+                for ln in (1, 2, 3):
+                    for shape in itertools.product((None, 'X'), repeat=ln):
+                        try:
+                            fires = all(ev(g, {'children': shape}) for g in guards)
+                        except _Unknown as u:
+                            raise AnalysisError(f'map_slice guard uses `{u}`, outside the evaluated fragment')
+                        if fires and any(c is not None for c in shape):
+                            bad = bad or shape
+                gtxt = ' and '.join(ast.unparse(g) for g in guards) or 'True'
+                inst = f'PymbolicMapper.map_slice:children={ast.unparse(st.value)}'
+                if bad:
+                    txt = ':'.join('' if c is None else 'n' for c in bad)
+                    ctx.violation('R6', inst, f'{PM.module.relpath}:{st.lineno}',
+                                  f'`children = {ast.unparse(st.value)}` fires under `{gtxt}` also for the section `{txt}` '
+                                  f'(components {bad}): its bounds/stride are dropped, e.g. arr(:n) becomes arr(:)',
+                                  facts={'guard': gtxt, 'counterexample_shape': list(bad)})
+                else:
+                    ctx.judge('R6', inst, facts={'guard': gtxt, 'shapes_evaluated': 14})
+    visit6(ms.node.body, [])
+    ctx.floor('R6', 'constant replacements of the converted range components', n6, 1)
+    # the aliases route every range-like node kind through the same method
+    for al in ('map_range', 'map_range_index', 'map_loop_range'):
+        mem = PM.members.get(al)
+        (ctx.judge('R6', f'{al} is map_slice') if mem is not None and mem.node is ms.node else
+         ctx.note(f'{al} no longer aliases map_slice'))
+
     # ---- R4
     pf = m.get_function(FILE, 'ExpressionParser.parse_float')
     reps = [n for n in ast.walk(pf.node) if isinstance(n, ast.Call) and isinstance(n.func, ast.Attribute)
@@ -289,6 +452,12 @@ def run(ctx):
 
 
 MUTANTS = [
+    Mutant('times-guard-nonstrict', FILE, "pstate.is_next(_times) and _PREC_TIMES > min_precedence", "pstate.is_next(_times) and _PREC_TIMES >= min_precedence",
+           expect=('R1', '/ then *'), quick=True),
+    Mutant('slice-guard-weakened', FILE, "        if len(children) == 1 and children[0] is None:", "        if children[0] is None:", expect=('R6', 'map_slice')),
+    Mutant('neutral-slice-guard-all-none', FILE, "        if len(children) == 1 and children[0] is None:", "        if len(children) == 1 and all(c is None for c in children):", expect=None),
+    Mutant('power-exponent-not-converted', FILE, "        exponent=self.rec(expr.exponent, *args, **kwargs)\n", "        exponent=expr.exponent\n", expect=('R5', 'map_power')),
+    Mutant('comparison-drops-right', FILE, "                right=self.rec(expr.right, *args, **kwargs))", "                right=self.rec(expr.left, *args, **kwargs))", expect=('R5', 'Comparison.right')),
     Mutant('plus-recursion-too-low', FILE,
            "        elif pstate.is_next(_plus) and _PREC_PLUS > min_precedence:\n            pstate.advance()\n            right_exp = self.parse_expression(pstate, _PREC_PLUS)",
            "        elif pstate.is_next(_plus) and _PREC_PLUS > min_precedence:\n            pstate.advance()\n            right_exp = self.parse_expression(pstate, _PREC_COMPARISON)",
